@@ -7,6 +7,8 @@
        set j k v       job_j.doc[k] = v           (read-modify-write of one document; implies init)
        get j           job_j.doc()                (implies init)
        len / iter      len(project) / [job.id for job in project]
+       check           project.check(): list the workspace, open and validate the state point of every listed id;
+                       the result is the set of ids it names as corrupted (empty: check() returned normally)
    on one project.  EVERY file-system call on a contended path (workspace directory, job directories,
    state point / document files and their temporary names) is one action of the calling process, in
    exactly the order the pinned tree issues them (recorded with harness/sched.py, DESIGN Appendix D):
@@ -20,6 +22,8 @@
      job.doc[k] = v       open:rb doc [read doc], open:wb tmp, write tmp, replace tmp -> doc
      job.doc()            <begin marker: the only action that is not a file-system call>, open:rb doc [read doc]
      len / iteration      listdir ws [ENOENT -> lstat ws]
+     check()              listdir ws [ENOENT -> lstat ws], then per listed id (the harness's shim returns listings sorted,
+                          Order below is that order): open:rb sp [read sp]; missing / invalid -> stat J [dir: corrupted | KeyError]
 
    so TLC explores ALL interleavings at file-system-call granularity.  The file system is a small POSIX
    model: directory flags, names -> inodes, inode contents, one temporary name per process, one open
@@ -28,7 +32,12 @@
    pipe/page size), so a file is either empty (created/truncated, not yet written) or complete.
 
    Requirements (the property's sentences):
-     NoActorError, NoTornObservation, ReadsSeeCompletedWrites, FinalSequential  (+ ListingSane)
+     NoActorError, NoTornObservation, ReadsSeeCompletedWrites, FinalSequential  (+ ListingSane, CheckSane:
+     whatever a process lists or check() names AT ANY TIME is a requested job - never an id nobody asked for)
+
+   CALIBRATED RULE CheckSeesMidInit (the documentation is silent; pinned behaviour, never flagged): a check() running
+   while another process is between mkdir(job dir) and the rename of the state point names THAT job - a requested
+   one - as corrupted.  It is the only way a check() of these scenarios names anything (CheckSane says so).
 
    Switches describe the protocol pieces; all TRUE is the pinned tree.  With one of them FALSE the module
    describes a broken protocol on which TLC must FIND a violation (model sanity, required by the driver):
@@ -52,6 +61,7 @@ OSet(j,k,v) == [op |-> "set",  j |-> j,   k |-> k,   v |-> v]
 OGet(j)     == [op |-> "get",  j |-> j,   k |-> "-", v |-> "-"]
 OLen        == [op |-> "len",  j |-> "-", k |-> "-", v |-> "-"]
 OIter       == [op |-> "iter", j |-> "-", k |-> "-", v |-> "-"]
+OCheck      == [op |-> "check", j |-> "-", k |-> "-", v |-> "-"]
 
 NoDoc == [x \in {} |-> {}]
 S(script, ws, jobs, jobs0, doc0, pre) ==
@@ -86,6 +96,10 @@ Builtin(n) ==
     [] n = "init_doc_mix" ->     \* initialise + write on one side, read + initialise on the other, same job, nothing exists
          S([p1 |-> <<OProj, OInit("j1"), OSet("j1", "k", "1")>>, p2 |-> <<OProj, OGet("j1"), OInit("j1"), OGet("j1")>>],
            FALSE, {"j1"}, {}, NoDoc, {})
+    [] n = "init_same_check" -> \* same job; the one that has finished counts, iterates and validates while the other may be mid-init
+         S([p1 |-> <<OProj, OInit("j1"), OLen, OIter, OCheck>>, p2 |-> <<OProj, OInit("j1"), OCheck>>], TRUE, {"j1"}, {}, NoDoc, {})
+    [] n = "init_diff_check" -> \* different jobs (one exists already): listings and check() while the neighbour is being created
+         S([p1 |-> <<OProj, OInit("j1"), OLen, OCheck>>, p2 |-> <<OProj, OInit("j2"), OIter, OCheck>>], TRUE, {"j1", "j2", "j3"}, {"j3"}, NoDoc, {})
     [] n = "init_same_3" ->      \* three processes, same job, no workspace (sampled with -simulate)
          S([p1 |-> <<OProj, OInit("j1"), OLen>>, p2 |-> <<OProj, OInit("j1"), OLen>>, p3 |-> <<OProj, OInit("j1"), OIter>>],
            FALSE, {"j1"}, {}, NoDoc, {})
@@ -134,11 +148,18 @@ vars == <<st, last>>
    st.jdir[j]            job directory exists           st.spf[j], st.docf[j]   inode behind the name (NoIno: no such name)
    st.tmp[p]             the temporary name of p: [ino, j, kind]              st.data[ino]  [full, v]
    st.fd[p]              inode of p's open descriptor   st.pc[p] = [i, l]     st.dk[p]      jobs whose handle skips the directory check
+   st.ck[p]              a running check(): [todo: listed jobs still to validate, bad: jobs found corrupted]
    st.lv[p]              document value loaded by the running operation        st.h0[p]      #completed writes when p's read began
    st.res[p]             "run" | "ok" | exception name   st.rets[p]            results of get / len / iter in script order
    st.hist[j]            history: values of the document of j, initial value first, then every COMPLETED write (at its rename)
    st.reads              history: [p, j, val, lo, hi] per completed document read
    last                  observation: the step just taken - [p, op, obj, j, out, val] *)
+
+\* the order in which a (sorted) listing presents the jobs: the harness chooses state points whose ids sort like the names
+Order == <<"j1", "j2", "j3">>
+ASSUME Jobs \subseteq {Order[i] : i \in 1..Len(Order)}
+Listed(s) == SelectSeq(Order, LAMBDA j : j \in Jobs /\ s.jdir[j])
+SeqSet(q) == {q[i] : i \in 1..Len(q)}
 
 Requested == Scn.jobs0 \cup {o.j : o \in UNION {{x \in Ops(p) : x.op \in {"init", "set", "get"}} : p \in Proc}}
 
@@ -148,6 +169,7 @@ First(o, dkp) ==
     [] o.op = "get" -> "gt_begin"
     [] o.op = "set" -> IF o.j \in dkp THEN "dc_open" ELSE "dv_stat"
     [] o.op \in {"len", "iter"} -> "ls_list"
+    [] o.op = "check" -> "ck_list"
 
 Init ==
   /\ st = [wsdir |-> Scn.ws,
@@ -161,6 +183,7 @@ Init ==
            pc    |-> [p \in Proc |-> IF Len(Script[p]) = 0 THEN [i |-> 1, l |-> "done"] ELSE [i |-> 1, l |-> First(Script[p][1], {})]],
            dk    |-> [p \in Proc |-> {}],
            lv    |-> [p \in Proc |-> {}],
+           ck    |-> [p \in Proc |-> [todo |-> <<>>, bad |-> {}]],
            h0    |-> [p \in Proc |-> 0],
            res   |-> [p \in Proc |-> IF Len(Script[p]) = 0 THEN "ok" ELSE "run"],
            rets  |-> [p \in Proc |-> <<>>],
@@ -327,7 +350,33 @@ LsList(p) == /\ At(p, "ls_list")
 LsLstat(p) == /\ At(p, "ls_lstat")                                 \* ENOENT: islink(workspace)? no -> no jobs
               /\ Commit(Adv(Ret(st, p, {}), p)) /\ Obs(p, "lstat", "ws", "-", IF st.wsdir THEN "ok" ELSE "ENOENT", {})
 
-Step(p) == \/ GtBegin(p) \/ PjStat(p) \/ PjStat2(p) \/ PjMkdir(p) \/ PjEexist(p)
+(* project.check(): _find_job_ids() then _get_statepoint_from_workspace(id) for every listed id *)
+CkNext(s, p) ==      \* the head of todo is dealt with
+  LET rest == Tail(s.ck[p].todo) IN
+  IF rest = <<>> THEN Adv(Ret([s EXCEPT !.ck[p] = [todo |-> <<>>, bad |-> {}]], p, JobSet(s.ck[p].bad)), p)
+  ELSE Go([s EXCEPT !.ck[p].todo = rest], p, "ck_open")
+CkList(p) == /\ At(p, "ck_list")
+             /\ IF st.wsdir
+                THEN LET l == Listed(st) IN
+                     /\ Obs(p, "listdir", "ws", "-", "ok", JobSet(SeqSet(l)))
+                     /\ Commit(IF l = <<>> THEN Adv(Ret(st, p, {}), p) ELSE Go([st EXCEPT !.ck[p] = [todo |-> l, bad |-> {}]], p, "ck_open"))
+                ELSE /\ Commit(IF ListTolerant THEN Go(st, p, "ls_lstat") ELSE Fail(st, p, "WorkspaceError"))
+                     /\ Obs(p, "listdir", "ws", "-", "ENOENT", {})
+CkOpen(p) == /\ At(p, "ck_open")
+             /\ LET j == Head(st.ck[p].todo) IN
+                IF st.jdir[j] /\ st.spf[j] # NoIno
+                THEN Commit(Go([st EXCEPT !.fd[p] = st.spf[j]], p, "ck_read")) /\ Obs(p, "open:rb", "sp", j, "ok", {})
+                ELSE Commit(Go(st, p, "ck_isdir")) /\ Obs(p, "open:rb", "sp", j, "ENOENT", {})
+CkRead(p) == /\ At(p, "ck_read")
+             /\ LET j == Head(st.ck[p].todo)   c == st.data[st.fd[p]]   s1 == [st EXCEPT !.fd[p] = NoIno] IN
+                IF c = Full(SpVal(j)) THEN Commit(CkNext(s1, p)) /\ Obs(p, "read", "sp", j, "ok", c.v)
+                ELSE Commit(Go(s1, p, "ck_isdir")) /\ Obs(p, "read", "sp", j, "torn", c.v)
+CkIsdir(p) == /\ At(p, "ck_isdir")                                 \* state point unreadable: a directory -> corrupted, else KeyError
+              /\ LET j == Head(st.ck[p].todo) IN
+                 IF st.jdir[j] THEN Commit(CkNext([st EXCEPT !.ck[p].bad = @ \cup {j}], p)) /\ Obs(p, "stat", "dir", j, "ok", {})
+                 ELSE Commit(Fail(st, p, "KeyError")) /\ Obs(p, "stat", "dir", j, "ENOENT", {})
+
+Step(p) == \/ CkList(p) \/ CkOpen(p) \/ CkRead(p) \/ CkIsdir(p) \/ GtBegin(p) \/ PjStat(p) \/ PjStat2(p) \/ PjMkdir(p) \/ PjEexist(p)
            \/ InOpen(p) \/ InRead(p) \/ MkStat(p) \/ MkStatWs(p) \/ MkMkdirWs(p) \/ MkEexistWs(p) \/ MkMkdir(p) \/ MkEexist(p)
            \/ SvStat(p) \/ SvCreat(p) \/ SvWrite(p) \/ SvRename(p) \/ VaOpen(p) \/ VaRead(p)
            \/ DvStat(p) \/ DcOpen(p) \/ DcRead(p) \/ DwCreat(p) \/ DwWrite(p) \/ DwRename(p)
@@ -354,6 +403,10 @@ ReadsSeeCompletedWrites == \A r \in st.reads : \E m \in r.lo..r.hi : st.hist[r.j
 \* a listing never invents a job and never misses one that existed before anybody started
 ListingSane == (last.op = "listdir" /\ last.out = "ok") => /\ last.val \subseteq JobSet(Requested)
                                                            /\ JobSet(Scn.jobs0) \subseteq last.val
+
+\* whatever check() names at any time is a requested job (by CheckSeesMidInit: one that was mid-initialisation)
+CheckSane == /\ \A p \in Proc : st.ck[p].bad \subseteq Requested
+             /\ \A p \in Proc : \A i \in 1..Len(st.rets[p]) : \A x \in st.rets[p][i] : x[1] = "job" => x[2] \in Requested
 
 \* the document some sequential execution produces: with a single writer process per document (SingleWriter) every
 \* sequential order of the processes applies that process's writes in program order to the initial value
